@@ -393,6 +393,17 @@ func (x *Exec) applyContract(fc *FuncContract, key string, sig *types.Signature,
 			st.heaps[t.heap] = Store(h, t.key, nv)
 		} else {
 			x.recordWrite(st, t.heap, t.key, nil, nil, nil, e)
+			if t.lo != nil && strings.HasPrefix(t.heap, "H_") && fc.Assume {
+				// ASSUMED contract with assigns x[*] (library routines such as
+				// sort.Ints): only the cells of x change, the rest of its region
+				// (other windows of the same backing array) is kept. Part of the
+				// trusted contract. For verified callees the frame check is per
+				// region, so callers may not assume this of them.
+				k := BoundVar{Name: x.freshBound("k"), Sort: SInt}
+				kt := mk(k.Name, SInt)
+				st.assume(Forall([]BoundVar{k}, Implies(Or(Lt(kt, t.lo), Ge(kt, t.hi)),
+					Eq(Select(cell, kt), Select(st.sel(h, t.key), kt))), Select(cell, kt)))
+			}
 			st.heaps[t.heap] = Store(h, t.key, cell)
 		}
 	}
